@@ -3,6 +3,7 @@ import Comdex.Model.DutchPrice
 import Comdex.Model.DutchV2
 import Comdex.Model.DutchV1
 import Comdex.Model.DutchV1Lend
+import Comdex.Model.DutchV1LendBook
 /-! Driver plug-in for the Dutch-auction models (C10).
 
 Pure price-function lines (real exported helpers / real block hooks on synthetic records):
@@ -17,6 +18,8 @@ Sequence lines (second generation, one seized position):
   dutch.begin   <env>  <rec> <balances> <misc>
   dutch.bid     who amt debtTwa            <ok|err|validate|panic> <rec> <balances> <misc>
   dutch.tick    now twaC actC twaD actD lbBefore lbAfter  <ok|panic> <rec> <balances> <misc>
+  dutch.tickesm (same fields)   a block while the emergency-shutdown status of the auction's app is on
+  dutch.bidx    who denom amt              <outcome> <rec> <balances> <misc>      a market bid in a foreign denomination
   dutch.limit   who premium amt            <outcome> <rec> <balances> <misc>
   dutch.reserve who amt                    <outcome> <rec> <balances> <misc>
 rec      := `closed` | `coll=..;debt=..;bonus=..;price=..;init=..;orc=..;ord=..;start=..;end=..`
@@ -30,10 +33,13 @@ First generation, liquidated borrow (x/auction dutch_lend.go):
   dutch.l1.begin <envL> <rec1> <balances> <misc>
   dutch.l1.bid   who slice lendReserveDebtBalance  <outcome> <rec1> <balances> <misc>
   dutch.l1.tick  now twaC actC twaD actD  <ok|panic> <rec1> <balances> <misc>
-  (`pool` = pool account + lend module account; extra monitors proceeds_forwarded, lend_bonus_stranded)
+  dutch.l1.bid   who slice lendReserveDebtBalance twaC actC twaD actD  <outcome> <rec1> <balances> <misc> <book>
+  (every dutch.l1 line ends with <book> = `lv=in:out:upd|none;borrow=in:out:liq|none;int=<raw>;trk=<raw>;ctok=poolCDebt:poolCColl:ownerCColl`;
+   `pool` = pool module account, `lendres` = lend module account; extra monitors proceeds_forwarded, lend_bonus_stranded, lend_close_books)
 Monitors (on REAL values): pay_le_target receive_le_collateral books_exact (+ `_after_d7` variants, see `finish`) posted_price
 price_monotone price_in_range price_below_end_at_T
-price_in_range_slack close_distributes leftover_to_owner bid_refused reserve_draw_skipped limit_fill_overcharge start_price start_record.
+price_in_range_slack close_distributes leftover_to_owner bid_refused reserve_draw_skipped limit_fill_overcharge start_price start_record
+close_branch_split esm_payout_le_proceeds (+ `_after_esm_trigger` variants of the two close monitors once `TriggerEsm` has paid anything out).
 -/
 -- DRIVER: prefix=dutch ns=Comdex.Drv.Dutch
 namespace Comdex.Drv.Dutch
@@ -80,6 +86,8 @@ structure V1St where
 /-! ### first generation, liquidated borrows -/
 structure L1St where
   e : DutchV1Lend.Env := {}
+  r : DutchV1LendBook.Rates := {}
+  k : DutchV1LendBook.Book := {}
   s : DutchV1Lend.St := {}
   prev : Option Obs1 := none
   begin_ : Option Obs1 := none
@@ -104,6 +112,7 @@ structure St where
   shortReal : Int := 0
   d7 : Bool := false       -- two limit bids of one premium bucket were debited in one block (known finding D7)
   overReal : Int := 0      -- limit deposits debited beyond what the auction charged (auctions.go:567-572)
+  esmOutReal : Int := 0    -- what `TriggerEsm` burned / sent to the collector while the auction stayed open (REAL balances)
   closedSeen : Bool := false
   v1 : V1St := {}
   l1 : L1St := {}
@@ -225,8 +234,10 @@ def priceMons (seq : String) (e : Env) (prev : Option Auc) (cur : Auc) (now : In
     match DutchPrice.endPrice top e.discount with
     | .ok endP =>
       (if 0 ≤ dur ∧ dur ≤ e.T then lowerMon seq dur e.T endP cur.price else []) ++
+      -- the proved band holds of EVERY live record after EVERY real block, whatever the elapsed time: past the end of the window
+      -- the record is either restarted or (price feed down, or app under emergency shutdown) left as it is — never updated
       (match DutchPrice.tau top endP e.T with
-       | .ok t => if 0 ≤ dur ∧ dur ≤ e.T ∧ 0 ≤ endP ∧ endP < top then
+       | .ok t => if 0 ≤ dur ∧ 0 ≤ endP ∧ endP < top then
                     mon seq "price_in_range_slack" (DutchPrice.monGeEndSlack top endP t cur.price) else []
        | .error _ => [])
     | .error _ => []
@@ -238,7 +249,7 @@ def priceMons (seq : String) (e : Env) (prev : Option Auc) (cur : Auc) (now : In
 
 /-- compare model and real after an op; evaluate the balance/ledger monitors on the REAL observation -/
 def finish (st : St) (seq : String) (outcomeModelOk : Bool) (outcome : String) (o : Obs) (isBid : Bool)
-    (consumed : List (String × Int)) (extraMons : List String) (chargedModel : Int := 0) : St × List String :=
+    (consumed : List (String × Int)) (extraMons : List String) (chargedModel : Int := 0) (esmTick : Bool := false) : St × List String :=
   let real_ok := outcome = "ok"
   let mo := modelObs st o
   let d1 := if isBid ∧ outcomeModelOk != real_ok then [s!"DIFF\t{seq}\toutcome model={outcomeModelOk} impl={outcome}"] else []
@@ -268,6 +279,14 @@ def finish (st : St) (seq : String) (outcomeModelOk : Bool) (outcome : String) (
   -- after a D7 event the record of this auction is corrupted for good: everything the ledger monitors say from then on
   -- (in this sequence only) carries the suffix, so that the same monitors stay meaningful everywhere else
   let sfx := if st.d7 then "_after_d7" else ""
+  -- emergency shutdown, vault-initiated auction past the end of its window: `TriggerEsm` burns / forwards what was collected but
+  -- leaves the auction open, so the next block does it again (REAL balances: collector + burn while the record stays)
+  let esmOutNow : Int :=
+    if esmTick ∧ prev.auc.isSome ∧ o.auc.isSome then ((balOf o "collector").2 - (balOf prev "collector").2) + (prev.supply - o.supply) else 0
+  let esmOutReal := st.esmOutReal + esmOutNow
+  -- reported on the line on which `TriggerEsm` pays (again), not on every later line of the sequence
+  let mEsm := if esmOutNow ≠ 0 then mon seq "esm_payout_le_proceeds" (decide (esmOutReal ≤ realPaid - overReal)) else []
+  let sfxC := if st.d7 then "_after_d7" else if esmOutReal ≠ 0 then "_after_esm_trigger" else ""
   let m1 := mon seq ("pay_le_target" ++ sfx) (decide (realPaid ≤ st.e.target))
   let m2 := mon seq ("receive_le_collateral" ++ sfx) (decide (realRecv ≤ st.e.coll0))
   -- while open the REAL books are exact: paid + remaining target = target, received + remaining collateral = seized
@@ -289,12 +308,28 @@ def finish (st : St) (seq : String) (outcomeModelOk : Bool) (outcome : String) (
         let proceeds := decide (realPaid - overReal + drawn + shortReal = out) && decide (out = st.e.target)
         let ownerOk := decide ((balOf o "owner").1 - (balOf b0 "owner").1 = st.e.coll0 - realRecv)
         -- recipient checked by ACCOUNT: "owner" is the account recorded in the locked vault at seizure
-        mon seq ("close_distributes" ++ sfx) (custody && proceeds && ownerOk) ++ mon seq ("leftover_to_owner" ++ sfx) ownerOk
+        -- per distribution branch of the close path (bid.go:122-158 / :161-190 / :191-202), on REAL balances since the seizure:
+        -- who got what of the target (theorems vault_/external_/lend_close_distributes)
+        let cut := match st.e.kind with
+          | .vault => cutOf st.e st.e.isKeeper
+          | _ => 0
+        let branchOk := match st.e.kind with
+          | .vault => decide (burned = st.e.target - st.e.fee) && decide (dlt "keeper" = cut) && decide (dlt "collector" = st.e.fee - cut) &&
+              decide (o.net - b0.net = st.e.fee - cut) && decide (dlt "initiator" = 0) && decide (dlt "pool" = 0) && decide (dlt "lendres" = 0) &&
+              decide (o.ext = st.ext0)
+          | .external => decide (dlt "initiator" = st.e.target - st.e.fee) && decide (o.ext - st.ext0 = st.e.fee) && decide (burned = 0) &&
+              decide (dlt "collector" = 0) && decide (dlt "keeper" = 0) && decide (dlt "pool" = 0) && decide (dlt "lendres" = 0)
+          | .lend => decide (dlt "lendres" = st.e.lendPen + (if st.e.lendInt > 0 then st.e.lendInt else 0)) &&
+              decide (dlt "pool" = st.e.target - st.e.lendPen - (if st.e.lendInt > 0 then st.e.lendInt else 0)) && decide (burned = 0) &&
+              decide (dlt "collector" = 0) && decide (dlt "keeper" = 0) && decide (dlt "initiator" = 0) && decide (o.ext = st.ext0)
+        -- (a vault auction that went through `TriggerEsm` has forwarded part of its proceeds already: the close monitors carry the suffix)
+        mon seq ("close_distributes" ++ sfxC) (custody && proceeds && ownerOk) ++ mon seq ("leftover_to_owner" ++ sfxC) ownerOk ++
+          (if sfxC = "" then mon seq "close_branch_split" branchOk else [])
     else []
   let st' := { st with prev := some o, realPaid := realPaid, realRecv := realRecv, baseD := baseD, drawnReal := drawn, shortReal := shortReal, overReal := overReal,
-                       closedSeen := st.closedSeen || closing }
+                       esmOutReal := esmOutReal, closedSeen := st.closedSeen || closing }
   let st' := if d2.isEmpty then st' else adopt st' o
-  (st', d1 ++ d2 ++ m0 ++ mOver ++ mB ++ m1 ++ m2 ++ m3 ++ extraMons)
+  (st', d1 ++ d2 ++ m0 ++ mOver ++ mEsm ++ mB ++ m1 ++ m2 ++ m3 ++ extraMons)
 
 def pureLine (seq : String) (m : Except Unit Int) (o v : String) (okTag : String := "ok") : List String :=
   let ms := match m with | .ok x => s!"{okTag}\t{x}" | .error _ => "fail\t-"
@@ -489,10 +524,72 @@ def modelObsL (v : L1St) (o : Obs1) : Obs1 :=
       | none => (n, 0, 0),
     net := none, supply := 0 }
 
-def finishL (v : L1St) (seq : String) (isBid : Bool) (okM : Bool) (outcome : String) (o : Obs1) (redep : Int) (extra : List String) : L1St × List String :=
+/-- the lend-side records printed with every `dutch.l1.*` line -/
+structure BookObs where
+  lv : Option DutchV1LendBook.LV
+  borrow : Option (Int × Int)
+  liquidated : Bool
+  intAcc : Int
+  resInt : Int
+  cPoolDebt : Int
+  cPoolColl : Int
+  cOwnerColl : Int
+  deriving BEq, Repr
+
+def parseLV (s : String) : Option (Option DutchV1LendBook.LV) :=
+  if s = "none" then some none else
+  match s.splitOn ":" with
+  | [a, b, c] => do
+    let a ← parseInt? a
+    let b ← parseInt? b
+    let c ← parseInt? c
+    pure (some { amtIn := a, amtOut := b, updOut := c })
+  | _ => none
+
+def parseBorrowL (s : String) : Option (Option (Int × Int) × Bool) :=
+  if s = "none" then some (none, true) else
+  match s.splitOn ":" with
+  | [a, b, c] => do
+    let a ← parseInt? a
+    let b ← parseInt? b
+    pure (some (a, b), c = "1")
+  | _ => none
+
+def parseBookL (s : String) : Option BookObs := do
+  let fs := kv s
+  let lv ← (field? fs "lv") >>= parseLV
+  let (borrow, liq) ← (field? fs "borrow") >>= parseBorrowL
+  let int ← getI fs "int"
+  let trk ← getI fs "trk"
+  let ct ← field? fs "ctok"
+  match ct.splitOn ":" with
+  | [a, b, c] =>
+    let a ← parseInt? a
+    let b ← parseInt? b
+    let c ← parseInt? c
+    pure { lv := lv, borrow := borrow, liquidated := liq, intAcc := int, resInt := trk, cPoolDebt := a, cPoolColl := b, cOwnerColl := c }
+  | _ => none
+
+def bookOfObs (k : DutchV1LendBook.Book) (o : BookObs) : DutchV1LendBook.Book :=
+  { k with lv := o.lv, borrow := o.borrow, liquidated := o.liquidated, intAcc := o.intAcc, resInt := o.resInt,
+           cPoolDebt := o.cPoolDebt, cPoolColl := o.cPoolColl, cOwnerColl := o.cOwnerColl }
+
+def obsOfBook (k : DutchV1LendBook.Book) : BookObs :=
+  { lv := k.lv, borrow := k.borrow, liquidated := if k.borrow.isSome then k.liquidated else true, intAcc := k.intAcc, resInt := k.resInt,
+    cPoolDebt := k.cPoolDebt, cPoolColl := k.cPoolColl, cOwnerColl := k.cOwnerColl }
+
+def showBookL (o : BookObs) : String :=
+  let lv := match o.lv with | none => "none" | some l => s!"{l.amtIn}:{l.amtOut}:{l.updOut}"
+  let bo := match o.borrow with | none => "none" | some (a, b) => s!"{a}:{b}:{if o.liquidated then 1 else 0}"
+  s!"lv={lv};borrow={bo};int={o.intAcc};trk={o.resInt};ctok={o.cPoolDebt}:{o.cPoolColl}:{o.cOwnerColl}"
+
+def finishL (v : L1St) (seq : String) (isBid : Bool) (okM : Bool) (outcome : String) (o : Obs1) (bo : BookObs)
+    (kPrev : DutchV1LendBook.Book) (extra : List String) : L1St × List String :=
   let mo := modelObsL v o
+  let mb := obsOfBook v.k
   let d1 := if isBid ∧ okM != (outcome = "ok") then [s!"DIFF\t{seq}\toutcome model={okM} impl={outcome}"] else []
   let d2 := if sameObs1 mo o then [] else [s!"DIFF\t{seq}\tmodel={showObs1 mo}\timpl={showObs1 o}"]
+  let d3 := if mb == bo then [] else [s!"DIFF\t{seq}\tbook model={showBookL mb}\timpl={showBookL bo}"]
   let prev := v.prev.getD o
   let (paidNow, recvNow) := ["b1", "b2", "b3", "b4"].foldl (fun (p, r) n =>
     let (c0, d0) := bal1 prev n
@@ -502,12 +599,15 @@ def finishL (v : L1St) (seq : String) (isBid : Bool) (okM : Bool) (outcome : Str
   let realRecv := v.realRecv + recvNow
   let m1 := mon seq "pay_le_target" (decide (realPaid ≤ v.e.target))
   let m2 := mon seq "receive_le_collateral" (decide (realRecv ≤ v.e.deposit))
-  -- the proceeds never rest in the module account: every unit paid is with the lending side after the same message
+  -- the proceeds never rest in the module account: every unit paid is with the lending side (pool + reserve) after the same message
   let (aC, aD) := bal1 o "auction"
+  let lendSide (x : Obs1) : Int := (bal1 x "pool").2 + (bal1 x "lendres").2
   let mD := match v.begin_ with
-    | some b0 => mon seq "proceeds_forwarded" (decide (aD = v.baseD) && decide ((bal1 o "pool").2 - (bal1 b0 "pool").2 = realPaid))
+    | some b0 => mon seq "proceeds_forwarded" (decide (aD = v.baseD) && decide (lendSide o - lendSide b0 = realPaid))
     | none => []
   let closing := prev.auc.isSome ∧ o.auc.isNone
+  -- what the close moved on the lending side, on REAL balances: collateral pool → auction module (follow-up auction) and pool → reserve
+  let redep := if closing then v.k.redep - kPrev.redep else 0
   let m3 :=
     if closing then
       match v.begin_ with
@@ -520,23 +620,46 @@ def finishL (v : L1St) (seq : String) (isBid : Bool) (okM : Bool) (outcome : Str
         let explained := decide (rest = v.e.deposit - v.e.coll0 - v.s.bonusPaid)
         -- the unsold collateral goes to the borrower recorded at seizure ("owner"), by account
         let toOwner := decide (ownerGot = v.e.coll0 - (realRecv - v.s.bonusPaid))
+        -- lend side of the close on REAL balances and records (close_distributes_all for this generation):
+        --   reserve: + interest share − what it paid for a sold-out auction (debt), + re-liquidation penalty (collateral)
+        --   pool: collateral − (follow-up deposit + penalty); cTokens of the debt asset minted = ⌊interest − reserve share⌋
+        let dRes := (bal1 o "lendres").2 - (bal1 prev "lendres").2
+        let dPoolC := (bal1 o "pool").1 - (bal1 prev "pool").1
+        let dResC := (bal1 o "lendres").1 - (bal1 prev "lendres").1
+        let kb := obsOfBook kPrev
+        let ri := if Dec.truncateInt kb.resInt > 0 then Dec.truncateInt kb.resInt else 0
+        let mint := if Dec.truncateInt (Dec.sub kb.intAcc kb.resInt) > 0 then Dec.truncateInt (Dec.sub kb.intAcc kb.resInt) else 0
+        let required := if realPaid ≥ v.e.target then 0 else v.e.target - realPaid
+        let lendOk := decide (dRes = ri - required) && decide (bo.cPoolDebt - kb.cPoolDebt = mint) &&
+          decide (dPoolC + dResC = -((aC - (bal1 prev "auction").1) + (bal1 o "owner").1 - (bal1 prev "owner").1 + recvNow)) &&
+          decide (0 ≤ dResC) &&
+          -- the position afterwards: deleted with the cTokens returned, restored with the locked vault's amounts, or re-liquidated
+          (match kb.lv, bo.lv, bo.borrow with
+           | some l0, none, none => decide (bo.cOwnerColl - kb.cOwnerColl = (if DutchV1LendBook.max0 (l0.amtOut - v.e.target) = 0 then l0.amtIn else 0))
+           | some l0, none, some (bi, bout) => decide (bi = l0.amtIn) && decide (bout = DutchV1LendBook.max0 (l0.amtOut - v.e.target)) && !bo.liquidated &&
+               decide (bo.cOwnerColl = kb.cOwnerColl)
+           | some l0, some l1, _ => decide (l1.amtOut = DutchV1LendBook.max0 (l0.amtOut - v.e.target)) && decide (l1.amtIn ≤ l0.amtIn) &&
+               decide (kb.cPoolColl - bo.cPoolColl = l0.amtIn - l1.amtIn ∨ l1.amtIn = 0)
+           | none, _, _ => false)
         mon seq "close_distributes" (conserved && explained) ++ mon seq "leftover_to_owner" toOwner ++
-          mon seq "lend_bonus_stranded" (decide (rest = 0))
+          mon seq "lend_bonus_stranded" (decide (rest = 0)) ++ mon seq "lend_close_books" lendOk
     else []
   let v' := { v with prev := some o, realPaid := realPaid, realRecv := realRecv, baseC := if closing then v.baseC + redep else v.baseC }
-  let v' := if d2.isEmpty then v' else { v' with s := { v'.s with auc := o.auc, bank := bankOf1 o } }
-  (v', d1 ++ d2 ++ m1 ++ m2 ++ mD ++ m3 ++ extra)
+  let v' := if d2.isEmpty ∧ d3.isEmpty then v' else { v' with s := { v'.s with auc := o.auc, bank := bankOf1 o }, k := bookOfObs v'.k bo }
+  (v', d1 ++ d2 ++ d3 ++ m1 ++ m2 ++ mD ++ m3 ++ extra)
 
 def handleL1 (v : L1St) (seq : String) (f : List String) : L1St × List String :=
   match f with
-  | ["dutch.l1.begin", env, r, b, _] =>
-    match parseEnvL env, parseObsL r b with
-    | some e, some o =>
+  | ["dutch.l1.begin", env, r, b, _, book] =>
+    match parseEnvL env, parseObsL r b, parseBookL book with
+    | some e, some o, some bo =>
       match o.auc with
       | none => (v, [s!"BAD\t{seq}\tl1 begin without auction"])
       | some a =>
         let s0 := DutchV1Lend.initSt e a (bankOf1 o)
-        let v' : L1St := { e := e, s := s0, prev := some o, begin_ := some o, baseC := s0.otherC, baseD := s0.otherD }
+        let fs := kv env
+        let rates : DutchV1LendBook.Rates := { ltv := (getI fs "ltv").getD 0, pen := (getI fs "pen").getD 0, thr := (getI fs "thr").getD 0 }
+        let v' : L1St := { e := e, r := rates, k := bookOfObs {} bo, s := s0, prev := some o, begin_ := some o, baseC := s0.otherC, baseD := s0.otherD }
         let twaC := (getI (kv env) "twaC").getD 0
         let okStart := match DutchPrice.startPrice twaC e.buffer with
           | .ok p0 => decide (a.price = p0) && decide (a.init = p0) &&
@@ -546,23 +669,20 @@ def handleL1 (v : L1St) (seq : String) (f : List String) : L1St × List String :
         let okRec := decide (a.outCur = e.coll0) && decide (a.inCur = 0) && decide (a.end_ = a.start + e.T) &&
           decide (e.coll0 + (e.coll0 * e.bonus) / Dec.P ≤ e.deposit)
         (v', mon seq "start_price" okStart ++ mon seq "start_record" okRec)
-    | _, _ => (v, [s!"BAD\t{seq}\tl1 begin"])
-  | ["dutch.l1.bid", who, amt, res, o, r, b, _] =>
-    match bidderNo who, parseInt? amt, parseInt? res, parseObsL r b with
-    | some w, some amt, some res, some obs =>
-      -- collateral handed to the module by an immediate re-liquidation of the same borrow (external value, REAL balances)
-      let redep := match v.prev with
-        | some p => if obs.auc.isNone ∧ p.auc.isSome then (bal1 p "pool").1 - (bal1 obs "pool").1 else 0
-        | none => 0
-      let r := DutchV1Lend.bidE v.e v.s w amt redep res
-      let okM := match r with | .ok _ => true | .error _ => false
+    | _, _, _ => (v, [s!"BAD\t{seq}\tl1 begin"])
+  | ["dutch.l1.bid", who, amt, _res, twaC, actC, twaD, actD, o, r, b, _, book] =>
+    match bidderNo who, parseInt? amt, parseInt? twaC, parseBool? actC, parseInt? twaD, parseBool? actD, parseObsL r b, parseBookL book with
+    | some w, some amt, some twaC, some actC, some twaD, some actD, some obs, some bo =>
+      let x : DutchV1LendBook.Ext := { twaC := twaC, actC := actC, twaD := twaD, actD := actD }
+      let res := DutchV1LendBook.bidE v.e v.r { s := v.s, k := v.k } w amt x
+      let okM := match res with | .ok _ => true | .error _ => false
       let refused := if okM && (o == "err") then [s!"MON\t{seq}\tbid_refused"] else []
-      let v1 := { v with s := match r with | .ok s' => s' | .error _ => v.s }
-      finishL v1 seq true okM o obs redep refused
-    | _, _, _, _ => (v, [s!"BAD\t{seq}\tl1 bid"])
-  | ["dutch.l1.tick", now, twaC, actC, twaD, actD, o, r, b, _] =>
-    match parseInt? now, parseInt? twaC, parseBool? actC, parseInt? twaD, parseBool? actD, parseObsL r b with
-    | some now, some twaC, some actC, some twaD, some actD, some obs =>
+      let v1 := match res with | .ok s' => { v with s := s'.s, k := s'.k } | .error _ => v
+      finishL v1 seq true okM o obs bo v.k refused
+    | _, _, _, _, _, _, _, _ => (v, [s!"BAD\t{seq}\tl1 bid"])
+  | ["dutch.l1.tick", now, twaC, actC, twaD, actD, o, r, b, _, book] =>
+    match parseInt? now, parseInt? twaC, parseBool? actC, parseInt? twaD, parseBool? actD, parseObsL r b, parseBookL book with
+    | some now, some twaC, some actC, some twaD, some actD, some obs, some bo =>
       let s' := DutchV1Lend.step v.e v.s (.tick now twaC actC twaD actD)
       let prevRec := v.prev.bind (·.auc)
       let e1 : DutchV1.Env := { T := v.e.T, buffer := v.e.buffer, cusp := v.e.cusp }
@@ -570,9 +690,9 @@ def handleL1 (v : L1St) (seq : String) (f : List String) : L1St × List String :
         | some cur => priceMons1 seq e1 prevRec cur now
         | none => []
       let dpanic := if o = "ok" then [] else [s!"DIFF\t{seq}\tl1 begin blocker panicked"]
-      let (v2, outs) := finishL { v with s := s' } seq false true "ok" obs 0 pm
+      let (v2, outs) := finishL { v with s := s' } seq false true "ok" obs bo v.k pm
       (v2, dpanic ++ outs)
-    | _, _, _, _, _, _ => (v, [s!"BAD\t{seq}\tl1 tick"])
+    | _, _, _, _, _, _, _ => (v, [s!"BAD\t{seq}\tl1 tick"])
   | _ => (v, [s!"BAD\t{seq}\tunknown dutch.l1 line"])
 
 def handle (st : St) (seq : String) (f : List String) : St × List String :=
@@ -657,6 +777,14 @@ def handle (st : St) (seq : String) (f : List String) : St × List String :=
         let okRec := decide (a.coll = e.coll0) && decide (a.debt = e.target) && decide (a.bonus = e.bonus0) && decide (a.end_ = a.start + e.T)
         (st', mon seq "start_price" okStart ++ mon seq "start_record" okRec)
     | _, _ => (st, [s!"BAD\t{seq}\tbegin"])
+  | ["dutch.bidx", _who, _denom, _amt, o, r, b, m] =>
+    -- MsgPlaceMarketBid in a denomination that is not the auction's debt denomination (bid.go:24-26): must be refused, nothing moves
+    match parseObs r b m with
+    | some obs =>
+      let d := if o = "ok" then [s!"DIFF\t{seq}\ta bid in a foreign denomination was accepted"] else []
+      let (st2, outs) := finish st seq false o obs false [] (mon seq "bid_wrong_denom_refused" (o != "ok"))
+      (st2, d ++ outs)
+    | none => (st, [s!"BAD\t{seq}\tbidx"])
   | ["dutch.bid", who, amt, dt, o, r, b, m] =>
     match bidderNo who, parseInt? amt, parseInt? dt, parseObs r b m with
     | some w, some amt, some dt, some obs =>
@@ -691,11 +819,14 @@ def handle (st : St) (seq : String) (f : List String) : St × List String :=
       let st1 := { st with s := orElse st.s res }
       finish st1 seq okM o obs true [] (pm ++ refused)
     | _, _, _, _ => (st, [s!"BAD\t{seq}\tbid"])
-  | ["dutch.tick", now, twaC, actC, twaD, actD, lb0, lb1, o, r, b, m] =>
+  | [tickKind, now, twaC, actC, twaD, actD, lb0, lb1, o, r, b, m] =>
+    if tickKind ≠ "dutch.tick" ∧ tickKind ≠ "dutch.tickesm" then (st, [s!"BAD\t{seq}\tunknown dutch line"]) else
     match parseInt? now, parseInt? twaC, parseBool? actC, parseInt? twaD, parseBool? actD, parseLB lb0, parseLB lb1, parseObs r b m with
     | some now, some twaC, some actC, some twaD, some actD, some lb0, some lb1, some obs =>
       let lbids : List LBid := lb0.filterMap fun (p, n, a) => (bidderNo n).map fun w => (p, w, a)
-      let s' := step st.e st.s (.tick now twaC actC twaD actD lbids)
+      -- `dutch.tickesm`: the app's emergency-shutdown status was on in this block (auctions.go:153-182)
+      let s' := if tickKind = "dutch.tickesm" then step st.e st.s (.tickEsm now twaC actC twaD actD lbids)
+                else step st.e st.s (.tick now twaC actC twaD actD lbids)
       let consumed : List (String × Int) := lb0.filterMap fun (p, n, a) =>
         let after := match lb1.find? (fun (p', n', _) => p' = p ∧ n' = n) with | some (_, _, a') => a' | none => 0
         if a - after ≠ 0 then some (n, a - after) else none
@@ -714,7 +845,7 @@ def handle (st : St) (seq : String) (f : List String) : St × List String :=
         if a - after > 0 then some (p, n) else none
       let d7now := debited.any fun (p, n) => debited.any fun (p', n') => p' = p ∧ n' ≠ n
       let st1 := { st with s := s', d7 := st.d7 || d7now }
-      let (st2, outs) := finish st1 seq true "ok" obs false consumed pm (s'.paid - st.s.paid)
+      let (st2, outs) := finish st1 seq true "ok" obs false consumed pm (s'.paid - st.s.paid) (tickKind = "dutch.tickesm")
       (st2, dpanic ++ outs)
     | _, _, _, _, _, _, _, _ => (st, [s!"BAD\t{seq}\ttick"])
   | ["dutch.limit", who, prem, amt, o, r, b, m] =>
